@@ -443,27 +443,33 @@ def touchingWindows (things containers : List Row) : Except Err (List (Nat × Na
     .ok ((List.range containers.length).map fun i =>
       (lefts.getD i 0, ((rights.find? fun q => q.1 == i).map (·.2)).getD 0))
 
-/-- state of `_replace_merged`: `window` = current `(skip_start, skip_end)`, `pending` = merged rows
-not yet inserted (`merge[window_i:]` zipped with the later windows). The sentinel
-`skip_start = skip_end = n_orig + 100` is `none`. -/
-def replaceLoop (nOrig : Nat) : List Row → Nat → Option (Nat × Nat) → List (Row × (Nat × Nat)) → List Row
+/-- first half of the loop body of `_replace_merged`: `if orig_i == skip_end:` insert `merge[window_i]`
+and advance to the next window (`none` = the sentinel `skip_start = skip_end = n_orig + 100`).
+`pend` = merged rows not yet inserted, zipped with their windows. -/
+def insertStep (i : Nat) (win : Option (Nat × Nat)) (pend : List (Row × (Nat × Nat))) (acc : List Row) :
+    Option (Nat × Nat) × List (Row × (Nat × Nat)) × List Row :=
+  match win, pend with
+  | some (_, e), (m, _) :: pend' =>
+    if i = e then
+      match pend' with
+      | [] => (none, [], m :: acc)
+      | (_, w) :: _ => (some w, pend', m :: acc)
+    else (win, pend, acc)
+  | _, _ => (win, pend, acc)
+
+/-- second half: `if orig_i >= skip_start: continue` else copy the row -/
+def keepRow (i : Nat) (win : Option (Nat × Nat)) : Bool :=
+  match win with
+  | some (s, _) => decide (i < s)
+  | none => true
+
+/-- the loop `for orig_i in range(n_orig)` of `_replace_merged` (result accumulated in reverse) -/
+def replaceLoop : List Row → Nat → Option (Nat × Nat) → List (Row × (Nat × Nat)) → List Row
     → List Row × Option (Nat × Nat) × List (Row × (Nat × Nat))
   | [], _, win, pend, acc => (acc.reverse, win, pend)
   | o :: os, i, win, pend, acc =>
-    -- if orig_i == skip_end: insert merge[window_i], advance the window
-    let (win, pend, acc) :=
-      match win, pend with
-      | some (_, e), (m, _) :: pend' =>
-        if i = e then
-          match pend' with
-          | [] => (none, [], m :: acc)
-          | (_, w) :: _ => (some w, pend', m :: acc)
-        else (win, pend, acc)
-      | _, _ => (win, pend, acc)
-    -- if orig_i >= skip_start: skip
-    match win with
-    | some (s, _) => if i ≥ s then replaceLoop nOrig os (i+1) win pend acc else replaceLoop nOrig os (i+1) win pend (o :: acc)
-    | none => replaceLoop nOrig os (i+1) win pend (o :: acc)
+    let st := insertStep i win pend acc
+    replaceLoop os (i+1) st.1 st.2.1 (if keepRow i st.1 then o :: st.2.2 else st.2.2)
 
 /-- `_replace_merged(result, orig, merge, skip_windows)` with `len(result)` as allocated by the
 wrapper; the final assertions are `AssertionError`s. -/
@@ -474,7 +480,7 @@ def replaceMergedCore (orig merge : List Row) (windows : List (Nat × Nat)) : Ex
     let nOrig := orig.length
     let skipN : Int := (windows.map fun w => (w.2 : Int) - (w.1 : Int)).sum
     let lenResult : Int := (orig.length : Int) - skipN + merge.length
-    let (res, win, pend) := replaceLoop nOrig orig 0 (some w0) ((m0, w0) :: pend') []
+    let (res, win, pend) := replaceLoop orig 0 (some w0) ((m0, w0) :: pend') []
     -- `if skip_end == n_orig:` still have to insert the last merged row
     match win, pend with
     | some (_, e), (m, _) :: rest =>
